@@ -378,6 +378,10 @@ def history(x0: int, t0: int, x1: int, t1: int, x2: int, t2: int, x3: int, t3: i
             return hx.end(True)                         # operation not applicable here: outside this obligation
         if not hx.same_seq(list(env.agents.values()), resident):
             return hx.end(hx.fail("residents", step=k))
+        # (partition option 'read_at': the listings are only READ after these steps - a change that keeps a pool's size
+        # between two reads, e.g. one agent leaving and another joining, then has no read in between)
+        if 'read_at' in hx.P and k not in hx.P['read_at']:
+            continue
         if _check_i3(m, resident, "after step %d (%s)" % (k, op)) is not True:
             return hx.end(False)
     return hx.end(True)
@@ -754,6 +758,10 @@ def obligations(tier):
         X("history", history, parts=_hist_parts(k, ["plain"]), labels=tuple(_LABEL_OF.values()), labels_for=_hist_labels,
           timeout=300, group=6, encoded=enc,
           bounds={"operations": "<= %d over {join, leave, offline attach/detach, resident register (order-preserving), resident deregister}" % k}),
+        X("history_sparse_reads", history, parts=[{"ops": "JLAJ", "world": "plain", "read_at": [0, 3]}, {"ops": "JAJLJ", "world": "plain", "read_at": [2, 4]},
+                                                 {"ops": "JLAJ", "world": "space", "read_at": [0, 3]}],
+          labels=tuple(_LABEL_OF.values()), labels_for=_hist_labels, timeout=300, encoded=enc,
+          bounds={"operations": "4-5, listings read only after the first and the last of them"}),
         X("history_spatial", history, parts=_hist_parts(2 if tier == "quick" else 3, ["space"]) +
           [{"ops": o, "world": w} for o in ("JRL", "JRU", "AJL", "JLJ") for w in ("space", "grid")], labels=tuple(_LABEL_OF.values()),
           labels_for=_hist_labels, timeout=300, group=6, encoded=senc, bounds={"operations": "<= %d in a SpaceWorld" % (2 if tier == "quick" else 3)}),
